@@ -136,19 +136,19 @@ fn malformed_key<H: HashChain>(with_aux: bool) {
     kani::cover!(klen == 0, "empty key reachable");
 }
 
-harness_stub! { fn c04_malformed_key_n16() unwind 36
+harness_stub! { fn c04_malformed_key_n16() unwind 18
     stub(hbs_lms::verif_hooks::hss_definitions::HssPrivateKey::from, crate::contracts::model_from_fails)
     { malformed_key::<HavocSum16>(false) }}
-harness_stub! { fn c04_malformed_key_aux_n16() unwind 36
+harness_stub! { fn c04_malformed_key_aux_n16() unwind 18
     stub(hbs_lms::verif_hooks::hss_definitions::HssPrivateKey::from, crate::contracts::model_from_fails)
     { malformed_key::<HavocSum16>(true) }}
-harness_stub! { fn c04_malformed_key_n32() unwind 36
+harness_stub! { fn c04_malformed_key_n32() unwind 18
     stub(hbs_lms::verif_hooks::hss_definitions::HssPrivateKey::from, crate::contracts::model_from_fails)
     { malformed_key::<HavocSum32>(false) }}
 
 /// Signing proper fails (contract "HssSignature::sign returns Err") on an otherwise usable key:
 /// no callback, no signature.
-harness_stub! { fn c04_sign_fails_no_callback() unwind 36
+harness_stub! { fn c04_sign_fails_no_callback() unwind 18
     stub(hbs_lms::verif_hooks::hss_signing::HssSignature::sign, crate::contracts::model_hss_sign_fails)
 {
     let mut key = [0xffu8; 32];
@@ -207,24 +207,20 @@ fn step_contract<H: HashChain>(param_bytes: &[u8], heights: &[u32]) {
         while k < 32 { assert!(arg[k] == 0, "last leaf: wiped seed"); k += 1; }
     }
     if let Ok(sig) = &r {
-        // the released signature (contract LMS signatures: q | ots type | C | lms type per level,
-        // followed by the child public key) carries the mixed-radix digits of the *input* counter
+        // the released signature (contract encoding: u32(levels - 1) | leaf index of every level) carries
+        // the mixed-radix digits of the *input* counter
         let s: &[u8] = sig.as_ref();
+        assert!(s.len() == 36, "contract signature record");
         assert!(s[..4] == ((levels - 1) as u32).to_be_bytes(), "level count field");
-        let n = H::OUTPUT_SIZE as usize;
-        let mut off = 4usize;
         let mut below = total;
         let mut l = 0;
         while l < levels {
             below -= heights[l];
-            let q = u32::from_be_bytes([s[off], s[off + 1], s[off + 2], s[off + 3]]) as u64;
+            let o = 4 + 4 * l;
+            let q = u32::from_be_bytes([s[o], s[o + 1], s[o + 2], s[o + 3]]) as u64;
             assert!(q == (c >> below) & ((1u64 << heights[l]) - 1), "leaf index of every level is the counter digit");
-            // contract signature: q(4) ots type(4) C(n) lms type(4); then the public key (24 + n)
-            off += 4 + 4 + n + 4;
-            if l + 1 < levels { off += 24 + n; }
             l += 1;
         }
-        assert!(off == s.len(), "signature consists of exactly `levels` LMS signatures and `levels - 1` public keys");
     }
     kani::cover!(r.is_ok() && c == (1u64 << total) - 1, "last signature released");
     kani::cover!(r.is_err(), "rejected update");
@@ -274,3 +270,58 @@ fn signing_key_entry_contract(param_bytes: &[u8], heights: &[u32]) {
 }
 harness_lms_contract! { fn c04_signing_key_entry_contract_h5() unwind 36 { signing_key_entry_contract(&[0x54], &[5]) }}
 harness_lms_contract! { fn c04_signing_key_entry_contract_h10_h5() unwind 36 { signing_key_entry_contract(&[0x64, 0x54], &[10, 5]) }}
+
+// ---- the same protocol / step / entry-point obligations over the "light" contracts (cheap) --------
+harness_protocol! { fn c04_protocol_light_h20() unwind 36 { step_contract::<HavocSum16>(&[0x84], &[20]) }}
+harness_protocol! { fn c04_protocol_light_h25_h5() unwind 36 { step_contract::<HavocSum16>(&[0x94, 0x54], &[25, 5]) }}
+harness_protocol! { fn c04_protocol_light_h5_h10_h25() unwind 36 { step_contract::<HavocSum16>(&[0x54, 0x64, 0x94], &[5, 10, 25]) }}
+harness_protocol! { fn c04_protocol_light_8x_h5() unwind 36 { step_contract::<HavocSum16>(&[0x54; 8], &[5; 8]) }}
+harness_protocol! { fn c04_signing_key_entry_light_h5() unwind 36 { signing_key_entry_contract(&[0x54], &[5]) }}
+harness_protocol! { fn c04_signing_key_entry_light_h10_h5() unwind 36 { signing_key_entry_contract(&[0x64, 0x54], &[10, 5]) }}
+
+/// C03 step over the LMS-layer contract, without the protocol tail: expansion + HSS signing real.
+/// The released structure carries on every level the digit of the input counter, every upper level
+/// has been used exactly once more than its digit, and the expanded key refuses a second signature.
+fn expand_and_sign(param_bytes: &[u8], heights: &[u32]) {
+    use hbs_lms::verif_hooks::hss_definitions::HssPrivateKey;
+    use hbs_lms::verif_hooks::hss_key::ReferenceImplPrivateKey;
+    use hbs_lms::verif_hooks::hss_signing::HssSignature;
+    type H = HavocSum16;
+    let levels = param_bytes.len();
+    let mut total = 0u32;
+    let mut l = 0;
+    while l < levels { total += heights[l]; l += 1; }
+    let mut key = [0xffu8; 32];
+    let c: u64 = kani::any();
+    kani::assume(c < (1u64 << total));
+    key[..8].copy_from_slice(&c.to_be_bytes());
+    key[8..8 + levels].copy_from_slice(param_bytes);
+    let seed: [u8; 16] = kani::any();
+    key[16..].copy_from_slice(&seed);
+    let rfc = ReferenceImplPrivateKey::<H>::from_binary_representation(&key).unwrap();
+    let mut k = HssPrivateKey::<H>::from(&rfc, &mut None).unwrap();
+    assert!(k.private_key.len() == levels && k.public_key.len() == levels - 1 && k.signatures.len() == levels - 1, "one key per level, one signed child per upper level");
+    assert!(k.get_lifetime() == (1u64 << total) - c, "remaining lifetime = leaves - counter");
+    let mut below = total;
+    let mut l = 0;
+    while l < levels {
+        below -= heights[l];
+        let digit = ((c >> below) & ((1u64 << heights[l]) - 1)) as u32;
+        let want = if l + 1 < levels { digit + 1 } else { digit };
+        assert!(k.private_key[l].used_leafs_index == want, "expansion: upper levels consumed exactly their current leaf, bottom level untouched");
+        if l + 1 < levels {
+            assert!(k.signatures[l].lms_leaf_identifier == digit.to_be_bytes(), "child key signed by the parent's current leaf");
+        }
+        l += 1;
+    }
+    let s = HssSignature::sign(&mut k, Some(&[1u8, 2]), None, &mut None).unwrap();
+    assert!(s.level == levels - 1 && s.signed_public_keys.len() == levels - 1, "level count field and signed keys");
+    let bottom = (c & ((1u64 << heights[levels - 1]) - 1)) as u32;
+    assert!(s.signature.lms_leaf_identifier == bottom.to_be_bytes(), "message signed by the bottom tree's current leaf");
+    assert!(k.private_key[levels - 1].used_leafs_index == bottom + 1, "bottom leaf consumed");
+    assert!(HssSignature::sign(&mut k, Some(&[3u8]), None, &mut None).is_err(), "an expanded key refuses to sign twice");
+    kani::cover!(c == (1u64 << total) - 1, "last counter");
+}
+harness_lms_contract! { fn c03_expand_and_sign_h25_h5() unwind 36 { expand_and_sign(&[0x94, 0x54], &[25, 5]) }}
+harness_lms_contract! { fn c03_expand_and_sign_h5_h10_h25() unwind 36 { expand_and_sign(&[0x54, 0x64, 0x94], &[5, 10, 25]) }}
+harness_lms_contract! { fn c03_expand_and_sign_h20() unwind 36 { expand_and_sign(&[0x84], &[20]) }}
